@@ -23,4 +23,18 @@ theorem c04_shape_study_data_writes_locked : studyDataWritesLocked Generated.ser
 /-- trial ids are always allocated under the study lock (no two trials with one id) -/
 theorem c04_shape_id_allocation_locked : idAllocationLocked Generated.servicerShape = true := by decide
 
+/-- no trial / operation row is created for a study deleted meanwhile: every row-creating datastore call
+    shares a lock with `delete_study`, and a call that fails on a missing study precedes it under that lock -/
+theorem c04_shape_child_rows_guarded : childRowsGuarded Generated.servicerShape = true := by decide
+
+/-- ... which is exactly what the pinned commit lacked (`DeleteStudy` took no lock): the discipline fails
+    for that shape (witness on the real code: schedule [CreateTrial.max_trial_id, DeleteStudy,
+    CreateTrial.create_trial] on SQLite leaves a trial row without a study) -/
+theorem c04_orphan_rows_counterexample : childRowsGuarded shapeWithUnlockedDelete = false := by decide
+
+/-- the intermediate repair (a79221c alone: `delete_study` under the study lock only) still fails the discipline:
+    operation records are created under the operation lock -/
+example : childRowsGuarded (assumedShape.map fun rc =>
+    if rc.1 == .deleteStudy then (rc.1, [(.deleteStudy, [.study])]) else rc) = false := by decide
+
 end VizierModel.C04
